@@ -311,3 +311,41 @@ package rueidis
 //@   modifies wout(o)
 //@   ensures [C14 array-of-bulk-strings] wout(o) == old(wout(o)) + "*" + dec(len(cmd)) + "\r\n" + enccmd(cmd, len(cmd))
 //@   loop 0: invariant [C14] rangeindex >= -1 && rangeindex < len(cmd) && wout(o) == old(wout(o)) + "*" + dec(len(cmd)) + "\r\n" + enccmd(cmd, rangeindex + 1)
+
+// ---------------------------------------------------------------------------------------------
+// C16 — accessors return exactly what the reply encodes (message.go). strconv / util parsing are uninterpreted
+// functions of the reply text: "matches the reply's content" is stated through them.
+//@ func RedisMessage.AsInt64
+//@   safety C15
+//@   inline
+//@   ensures [C16 integer-reply] m.typ == ':' ==> (err == nil && val == m.intlen)
+//@   ensures [C16 text-reply-is-parsed-as-signed-decimal] (m.typ == '$' || m.typ == '+') ==> (val == first(strconv.ParseInt(m.string(), 10, 64)) && err == second(strconv.ParseInt(m.string(), 10, 64)))
+
+//@ func RedisMessage.AsUint64
+//@   safety C15
+//@   inline
+//@   ensures [C16 integer-reply] m.typ == ':' ==> (err == nil && val == uint64(m.intlen))
+//@   ensures [C16 text-reply-is-parsed-as-unsigned-decimal] (m.typ == '$' || m.typ == '+') ==> (val == first(strconv.ParseUint(m.string(), 10, 64)) && err == second(strconv.ParseUint(m.string(), 10, 64)))
+
+//@ func RedisMessage.AsBool
+//@   safety C15
+//@   inline
+//@   ensures [C16 ok-string] (m.typ == '$' || m.typ == '+') ==> (err == nil && (val <==> m.string() == "OK"))
+//@   ensures [C16 integer-reply] m.typ == ':' ==> (err == nil && (val <==> m.intlen != 0))
+//@   ensures [C16 boolean-reply] m.typ == '#' ==> (err == nil && (val <==> m.intlen == 1))
+
+//@ func RedisMessage.AsFloat64
+//@   safety C15
+//@   inline
+//@   ensures [C16 text-or-double-reply-is-parsed] (m.typ == ',' || m.typ == '$' || m.typ == '+') ==> (val == first(util.ToFloat64(m.string())) && err == second(util.ToFloat64(m.string())))
+
+//@ func RedisMessage.AsStrSlice
+//@   safety C15
+//@   ensures [C16 same-length] (m.typ == '*' || m.typ == '~') ==> (result1 == nil && len(result0) == len(m.values()))
+//@   ensures [C16 same-elements-in-order] (m.typ == '*' || m.typ == '~') ==> (forall k int :: 0 <= k && k < len(result0) ==> result0[k] == m.values()[k].string())
+//@   loop 0: invariant [C16] rangeindex >= -1 && rangeindex < len(values) && len(s) == rangeindex + 1 && (forall k int :: 0 <= k && k < len(s) ==> s[k] == values[k].string())
+
+//@ func toZScore
+//@   safety C15
+//@   ensures [C16 member-and-score] (len(values) == 2 && (values[0].typ == '$' || values[0].typ == '+') && (values[1].typ == ',' || values[1].typ == '$' || values[1].typ == '+')) ==> (s.Member == values[0].string() && s.Score == first(util.ToFloat64(values[1].string())) && err == second(util.ToFloat64(values[1].string())))
+//@   ensures [C16 wrong-length-is-error] len(values) != 2 ==> err != nil
